@@ -329,3 +329,351 @@ def r03h(R):
                 'like a later constant reads the constant - arguments are '
                 'ignored, recursion on the parameter does not end'
                 % (verdict or 'cannot be decided'), line=s.lineno)
+
+
+# ---------------------------------------------------------------- R01.o
+def _tri(A, f, e, env):
+    """Three-valued truth of `e` when the locals in `env` (name -> value)
+    are known: True / False / None (unknown). `or` is true as soon as one
+    operand is known true, `and` false as soon as one is known false."""
+    if isinstance(e, ast.BoolOp):
+        vals = [_tri(A, f, v, env) for v in e.values]
+        if isinstance(e.op, ast.Or):
+            if any(v is True for v in vals):
+                return True
+            return False if all(v is False for v in vals) else None
+        if any(v is False for v in vals):
+            return False
+        return True if all(v is True for v in vals) else None
+    if isinstance(e, ast.UnaryOp) and isinstance(e.op, ast.Not):
+        v = _tri(A, f, e.operand, env)
+        return None if v is None else not v
+    if isinstance(e, ast.Compare) and len(e.ops) == 1:
+        sides = []
+        for s in (e.left, e.comparators[0]):
+            if isinstance(s, ast.Name) and s.id in env:
+                sides.append(env[s.id])
+            else:
+                v = A.try_fold(s, f)
+                if not isinstance(v, EnumVal):
+                    return None
+                sides.append(v)
+        same = sides[0] == sides[1]
+        if isinstance(e.ops[0], (ast.Is, ast.Eq)):
+            return same
+        if isinstance(e.ops[0], (ast.IsNot, ast.NotEq)):
+            return not same
+    return None
+
+
+@rule('R01.o', ('C01', 'C03'), 'a constant right-hand side is always moved '
+      'to its destination', floor=1,
+      decides='an assignment / register setting whose value is a literal '
+              'takes effect whatever the literal is spelled like (no '
+              'identity or equality test against the destination can skip it)')
+def r01o(R):
+    A = R.A
+    f = A.func(PARSE, 'Parser._rvalue')
+    cfg = A.cfg(f)
+    marks = []      # (node, local) storing OpCode.MOVEQ: "the value is a constant"
+    for n in cfg.nodes:
+        if n.kind == 'stmt' and isinstance(n.ast, ast.Assign) \
+                and len(n.ast.targets) == 1 \
+                and isinstance(n.ast.targets[0], ast.Name):
+            v = A.try_fold(n.ast.value, f)
+            if isinstance(v, EnumVal) and v.enum == 'OpCode' and v.member == 'MOVEQ':
+                marks.append((n, n.ast.targets[0].id))
+    if not marks:
+        raise AnalysisError('Parser._rvalue: no local marks the value as a '
+                            'constant (X = OpCode.MOVEQ)')
+    emits = set()
+    for n in cfg.nodes:
+        for c in n.calls():
+            if isinstance(c.func, ast.Attribute) and c.func.attr in (
+                    'add_instruction', 'push', 'pushq', 'add_list'):
+                emits.add(n.id)
+    for mark, local in marks:
+        env = {local: EnumVal('OpCode', 'MOVEQ')}
+        prev = {}
+        todo = []
+        for m, _l in mark.succs:
+            prev[m.id] = None
+            todo.append(m)
+        found = None
+        byid = {n.id: n for n in cfg.nodes}
+        while todo and found is None:
+            n = todo.pop(0)
+            if n.id in emits:
+                continue
+            if n.is_return:
+                if A.ret_class(f, n)[0] != 'fail':
+                    found = n
+                continue
+            want = _tri(A, f, n.ast, env) if n.kind == 'cond' else None
+            # the marker is re-assigned: this path no longer carries a constant
+            if n.kind == 'stmt' and isinstance(n.ast, ast.Assign) and any(
+                    isinstance(t, ast.Name) and t.id == local
+                    for t in n.ast.targets) and n is not mark:
+                continue
+            for m, lab in n.succs:
+                if m.id in prev:
+                    continue
+                if want is not None and lab in (True, False) and lab is not want:
+                    continue
+                prev[m.id] = n.id
+                todo.append(m)
+        path = None
+        if found is not None:
+            path = []
+            cur = found.id
+            while cur is not None:
+                path.append(byid[cur])
+                cur = prev[cur]
+            path.reverse()
+        R.check(f, '%s = MOVEQ -> emission' % local, found is None,
+                'a literal right-hand side can be accepted without any '
+                'instruction being emitted for it (the skip test compares the '
+                'value with the destination: `assign a "a"` leaves a unchanged)',
+                path=path_text(path) if path else None, line=mark.lineno
+                if hasattr(mark, 'lineno') else None)
+
+
+# ---------------------------------------------------------------- R13.h
+SETTINGS = 'bardolph.lib.settings'
+
+
+@rule('R13.h', ('C13', 'C12'), 'a configured value is returned whenever the '
+      'key is present: the default stands in for a missing key only',
+      floor=3,
+      decides='a configured age / interval of 0 (or a flag set to False) is the one '
+              'the directory uses; it is not replaced by the built-in default')
+def r13h(R):
+    from ..const import Unfoldable
+    A = R.A
+    f = A.func(SETTINGS, 'Settings.get_value')
+    if len(f.params) < 3:
+        raise AnalysisError('Settings.get_value: (self, name, default) expected')
+    name, default = f.params[1], f.params[2]
+    store = None
+    for n in walk_own(f.node):
+        if isinstance(n, ast.Attribute) and isinstance(n.value, ast.Name) \
+                and n.value.id == 'self':
+            store = norm(n)
+            break
+    if store is None:
+        raise AnalysisError('Settings.get_value: the configuration store is '
+                            'not read')
+    for label, value in (('0', 0), ('False', False)):
+        try:
+            got = A.peval(f, {store: {'k': value}, name: 'k', default: 'D'})
+        except Unfoldable as ex:
+            raise AnalysisError('Settings.get_value does not evaluate for a '
+                                'present key: %s' % ex)
+        R.check(f, 'present key holding %s' % label,
+                got == value and type(got) is type(value),
+                'get_value answers %r for a key configured as %s: a falsy '
+                'setting (light_gc_time 0) is replaced by the default'
+                % (got, label))
+    try:
+        got = A.peval(f, {store: {}, name: 'k', default: 'D'})
+    except Unfoldable as ex:
+        raise AnalysisError('Settings.get_value does not evaluate for a '
+                            'missing key: %s' % ex)
+    R.check(f, 'missing key', got == 'D', 'get_value answers %r instead of '
+            'the default for a key that is not configured' % (got,))
+
+
+# ---------------------------------------------------------------- R08.j
+def _within_lock(f, target):
+    for w in walk_own(f.node):
+        if isinstance(w, ast.With) and any(
+                'lock' in norm(i.context_expr).lower() for i in w.items) \
+                and any(sub is target for s in w.body for sub in ast.walk(s)):
+            return True
+    return False
+
+
+@rule('R08.j', ('C08', 'C20'), 'a job controller shared through a class or '
+      'module attribute is created once: at import, or under a lock', floor=2,
+      decides='all requests reach the same queue: two first requests that '
+              'race cannot each build their own controller and run two '
+              'queued jobs at once')
+def r08j(R):
+    A = R.A
+    seen = 0
+    # class-body / module-level constructions run once, under the import lock
+    for mod in A.repo.modules.values():
+        if not (mod.name.startswith('bardolph.') or mod.name.startswith('web.')) \
+                or '.fakes' in mod.name or 'tests' in mod.name:
+            continue
+        for st in ast.walk(mod.tree):
+            if isinstance(st, ast.Call) and norm(st.func).split('.')[-1] == 'JobControl':
+                seen += 1
+    if not seen:
+        raise AnalysisError('no JobControl construction found')
+    for prefix in ('bardolph', 'web'):
+        for f in A.repo.all_functions(prefix):
+            if '.fakes' in f.module.name:
+                continue
+            for st in walk_own(f.node):
+                if not isinstance(st, (ast.Assign, ast.AnnAssign)):
+                    continue
+                val = st.value
+                if val is None or not any(
+                        isinstance(c, ast.Call)
+                        and norm(c.func).split('.')[-1] == 'JobControl'
+                        for c in ast.walk(val)):
+                    continue
+                targets = st.targets if isinstance(st, ast.Assign) else [st.target]
+                globs = set()
+                for g in walk_own(f.node):
+                    if isinstance(g, ast.Global):
+                        globs |= set(g.names)
+                for t in targets:
+                    shared = False
+                    if isinstance(t, ast.Name) and t.id in globs:
+                        shared = True
+                    if isinstance(t, ast.Attribute) and not (
+                            isinstance(t.value, ast.Name)
+                            and t.value.id in ('self',)):
+                        shared = True       # Cls.attr / cls.attr / module.attr
+                    # test-and-set: the store is conditioned on the same
+                    # attribute / name being missing (creation on first use)
+                    key = norm(t).split('.')[-1]
+                    lazy = any(
+                        isinstance(i, ast.If) and key in norm(i.test)
+                        and any(sub is st for b in i.body + i.orelse
+                                for sub in ast.walk(b))
+                        for i in walk_own(f.node))
+                    ok = not (shared and lazy) or _within_lock(f, st)
+                    R.check(f, norm(st)[:70], ok,
+                            'the shared controller `%s` is created on first '
+                            'use without a lock: two threads that both find '
+                            'it missing each build one, their jobs land in '
+                            'different queues and run at the same time'
+                            % norm(t), line=st.lineno)
+    R.check(A.func('bardolph.controller.ls_module', 'LsModule.queue_script'),
+            'JobControl constructions (%d)' % seen, True, '')
+
+
+# ---------------------------------------------------------------- R19.j
+STDOUT = 'bardolph.lib.std_out_output'
+
+
+@rule('R19.j', ('C19',), 'the stdout sink writes the text it is handed, '
+      'whole, on every path', floor=3,
+      decides='every character a print / println / printf produces reaches '
+              'stdout: the sink does not strip, cut or rewrite it')
+def r19j(R):
+    A = R.A
+    f = A.func(STDOUT, 'StdOutOutput.out')
+    if len(f.params) < 2:
+        raise AnalysisError('StdOutOutput.out: (self, output) expected')
+    param = f.params[1]
+    # locals that hold the text unchanged: x = output / x = str(output)
+    whole = {param}
+    derived = {}
+    for st in walk_own(f.node):
+        if isinstance(st, ast.Assign) and len(st.targets) == 1 \
+                and isinstance(st.targets[0], ast.Name):
+            v = st.value
+            if isinstance(v, ast.Name) and v.id in whole:
+                whole.add(st.targets[0].id)
+            elif isinstance(v, ast.Call) and norm(v.func) == 'str' \
+                    and len(v.args) == 1 and isinstance(v.args[0], ast.Name) \
+                    and v.args[0].id in whole:
+                whole.add(st.targets[0].id)
+            elif any(isinstance(x, ast.Name) and x.id in whole
+                     for x in ast.walk(v)):
+                derived[st.targets[0].id] = norm(v)
+
+    def is_whole(e):
+        if isinstance(e, ast.Name) and e.id in whole:
+            return True
+        return isinstance(e, ast.Call) and norm(e.func) == 'str' \
+            and len(e.args) == 1 and is_whole(e.args[0])
+    cfg = A.cfg(f)
+    good = []
+    prints = 0
+    for n in cfg.nodes:
+        for c in n.calls():
+            if not (norm(c.func) in ('print', 'sys.stdout.write') and c.args):
+                continue
+            a = c.args[0]
+            mentions = [x.id for x in ast.walk(a) if isinstance(x, ast.Name)
+                        and (x.id in whole or x.id in derived)]
+            if not mentions:
+                continue
+            prints += 1
+            ok = is_whole(a)
+            R.check(f, norm(c), ok,
+                    'the sink writes `%s`, not the text it was handed: '
+                    'characters of the output are dropped or rewritten on '
+                    'the way to stdout (a format ending in two line breaks '
+                    'loses one)' % (derived.get(mentions[0], norm(a))
+                                    if isinstance(a, ast.Name) else norm(a)),
+                    line=c.lineno)
+            if ok:
+                end = [k.value for k in c.keywords if k.arg == 'end']
+                endv = A.try_fold(end[0], f) if end else None
+                R.check(f, 'end of %s' % norm(c), norm(c.func) != 'print'
+                        or endv == '', 'print() adds %r after the text: the '
+                        'sink owes the line break to newline() / flush() only'
+                        % ('\n' if not end else endv), line=c.lineno)
+                good.append(n)
+    if not prints:
+        raise AnalysisError('StdOutOutput.out: no write of the text found')
+    p = cfg.find_path([cfg.entry], lambda n: n is cfg.exit, avoid=good)
+    R.check(f, 'entry -> write of the whole text -> exit', p is None,
+            'out() can return without having written the text it was handed',
+            path=path_text(p) if p else None)
+
+
+# ---------------------------------------------------------------- R18.g
+@rule('R18.g', ('C18', 'C13'), 'the directory files a light under the name '
+      'the light reports, unchanged', floor=2,
+      decides='a captured script names each light by get_name(); the VM finds '
+              'it under exactly that text (labels with blanks at either end '
+              'included)')
+def r18g(R):
+    A = R.A
+    f = A.func(LIGHTSET, 'LightSet.discover')
+    keys = []
+    for st in walk_own(f.node):
+        if isinstance(st, ast.Assign) and len(st.targets) == 1 \
+                and isinstance(st.targets[0], ast.Subscript) \
+                and self_attr(st.targets[0].value) \
+                and 'light' in st.targets[0].value.attr:
+            keys.append((st.targets[0].slice, st.lineno, norm(st.targets[0])))
+        if isinstance(st, ast.Call) and isinstance(st.func, ast.Attribute) \
+                and st.func.attr == 'add' and self_attr(st.func.value) \
+                and 'name' in st.func.value.attr and st.args:
+            keys.append((st.args[0], st.lineno, norm(st)))
+    if not keys:
+        raise AnalysisError('LightSet.discover: no store into the light table')
+
+    def plain(e, depth=0):
+        """e is <light>.get_name(), str() of it, or a local bound only to that."""
+        if isinstance(e, ast.Call) and isinstance(e.func, ast.Attribute) \
+                and e.func.attr == 'get_name' and not e.args:
+            return True, None
+        if isinstance(e, ast.Call) and norm(e.func) == 'str' and len(e.args) == 1:
+            return plain(e.args[0], depth + 1)
+        if isinstance(e, ast.Name) and depth < 4:
+            vals = [s.value for s in walk_own(f.node)
+                    if isinstance(s, ast.Assign) and any(
+                        isinstance(t, ast.Name) and t.id == e.id for t in s.targets)]
+            if not vals:
+                return False, '%s (not bound here)' % e.id
+            for v in vals:
+                ok, why = plain(v, depth + 1)
+                if not ok:
+                    return False, why
+            return True, None
+        return False, norm(e)
+    for e, line, text in keys:
+        ok, why = plain(e)
+        R.check(f, text, ok, 'the light is filed under `%s`, not under the '
+                'name it reports: a captured script names it by get_name() '
+                'and the look-up misses it, so replay skips the light' % why,
+                line=line)
